@@ -7,6 +7,7 @@ import IcyVerif.Drv.Comp
 import IcyVerif.Drv.Crc
 import IcyVerif.Drv.Font
 import IcyVerif.Drv.FontBox
+import IcyVerif.Drv.FontDcs
 import IcyVerif.Drv.FontLoad
 import IcyVerif.Drv.IcyDraw
 import IcyVerif.Drv.Igs
@@ -17,6 +18,7 @@ import IcyVerif.Drv.Rect
 import IcyVerif.Drv.Rip
 import IcyVerif.Drv.Rows
 import IcyVerif.Drv.Sauce
+import IcyVerif.Drv.SauceUni
 import IcyVerif.Drv.Sixel
 import IcyVerif.Drv.SixelLoad
 import IcyVerif.Drv.SixelQueue
@@ -38,6 +40,7 @@ def dispatch (line : String) : String :=
   | "crc" :: rest => Crc.handle rest
   | "font" :: rest => Font.handle rest
   | "fontbox" :: rest => FontBox.handle rest
+  | "fontdcs" :: rest => FontDcs.handle rest
   | "fontload" :: rest => FontLoad.handle rest
   | "icydraw" :: rest => IcyDraw.handle rest
   | "igs" :: rest => Igs.handle rest
@@ -48,6 +51,7 @@ def dispatch (line : String) : String :=
   | "rip" :: rest => Rip.handle rest
   | "rows" :: rest => Rows.handle rest
   | "sauce" :: rest => Sauce.handle rest
+  | "sauceuni" :: rest => SauceUni.handle rest
   | "sixel" :: rest => Sixel.handle rest
   | "sixelload" :: rest => SixelLoad.handle rest
   | "sixelqueue" :: rest => SixelQueue.handle rest
